@@ -30,7 +30,12 @@ func init() {
 		for _, sc := range c12Scens(tier) {
 			ends := sc.Fault == "none" && (sc.Stream == "ts-va" || sc.Stream == "fmp4-va" || sc.Stream == "fmp4-v+a" || sc.Stream == "ts-big")
 			held := sc.Fault == "stall" && sc.Stream == "ll" && sc.Policy == 0 // Low-Latency: a request the server holds when Close arrives
-			if (ends || held) && sc.Closers == 1 && sc.CloseInCB == 0 {
+			if sc.LagTracks {
+				// Low-Latency: the processor more than one part behind the downloader - each part reaches it once, in download order
+				out = append(out, vh.Scenario{Name: sc.name(), Weight: 30})
+				continue
+			}
+			if (ends || held) && sc.Closers == 1 && sc.CloseInCB == 0 && !sc.SlowTracks && sc.Res2 == "" {
 				out = append(out, vh.Scenario{Name: sc.name(), Weight: 30})
 			}
 		}
